@@ -45,11 +45,11 @@ def extract(ctx):
     t = rw.sub(t, r'T = --tail;', 'T = ATOMIC_PREDEC(self->tail);', 1, 1, name='atomic --')
     t = rw.sub(t, r'(?<![\w.>])(tail|head)\.load\([^)]*\)', r'ATOMIC_LOAD(self->\1)', 4, name='atomic-load')
     t = rw.sub(t, r'(?<![\w.>])(tail|head)\.store\(([^;]*?), std::memory_order_\w+\);', r'ATOMIC_STORE(self->\1, \2);', 3, 3, name='atomic-store')
-    t = rw.sub(t, r'(?<![\w.>])task_pool_ptr\b', 'self->task_pool_ptr', 3, name='field')
+    t = rw.sub(t, r'(?<![\w.>])task_pool_ptr\b', 'self->task_pool_ptr', 1, name='field')
     t = rw.sub(t, r'(?<![\w.>])(acquire_task_pool|release_task_pool|reset_task_pool_and_leave|publish_task_pool)\(\)', r'slot_\1(self)', 5, name='method')
     t = rw.sub(t, r'(?<![\w.>])(is_task_pool_published|is_quiescent_local_task_pool_reset)\(\)', r'slot_\1(self)', 3, name='method')
     t = rw.sub(t, r'get_task_impl\( T, ed, tasks_omitted, isolation \)', 'slot_get_task_impl( self, T, ed, &tasks_omitted, isolation )', 1, 1, name='method + ref-param')
-    t = rw.sub(t, r'poison_pointer\( self->task_pool_ptr\[T\] \);', 'RG_NOP();', 2, 2, name='poison_pointer (no-op in release builds) -> RG_NOP')
+    t = rw.sub(t, r'poison_pointer\( self->task_pool_ptr\[T\] \);', 'RG_NOP();', 0, None, name='poison_pointer (no-op in release builds) -> RG_NOP')
     t = rw.sub(t, r'ed\.task_disp->m_thread_data->my_arena->advertise_new_work<arena::wakeup>\(\);', 'STUB_advertise_new_work();', 2, 2, name='callee stub')
     t = rw.sub(t, r'd1::task\*', 'task*', 1, name='ns-strip')
     t = rw.asserts(t, 8)
